@@ -11,7 +11,7 @@ namespace detail
 			vec<L, T, Q> const ClampedColor(clamp(ColorRGB, static_cast<T>(0), static_cast<T>(1)));
 
 			return mix(
-				pow(ClampedColor, vec<L, T, Q>(GammaCorrection)) * static_cast<T>(1.055) - static_cast<T>(0.055),
+				pow(ClampedColor, vec<L, T, Q>(GammaCorrection)) * static_cast<T>(1.055) - (static_cast<T>(1.055) - static_cast<T>(1)),
 				ClampedColor * static_cast<T>(12.92),
 				lessThan(ClampedColor, vec<L, T, Q>(static_cast<T>(0.0031308))));
 		}
@@ -32,7 +32,7 @@ namespace detail
 		GLM_FUNC_QUALIFIER static vec<L, T, Q> call(vec<L, T, Q> const& ColorSRGB, T Gamma)
 		{
 			return mix(
-				pow((ColorSRGB + static_cast<T>(0.055)) * static_cast<T>(0.94786729857819905213270142180095), vec<L, T, Q>(Gamma)),
+				pow((ColorSRGB + (static_cast<T>(1.055) - static_cast<T>(1))) / static_cast<T>(1.055), vec<L, T, Q>(Gamma)),
 				ColorSRGB * static_cast<T>(0.07739938080495356037151702786378),
 				lessThanEqual(ColorSRGB, vec<L, T, Q>(static_cast<T>(0.04045))));
 		}
